@@ -96,6 +96,12 @@ def find_cause_pep484585_container_args_1(
     # ....................{ SATISFY ~ empty                }....................
     # If either...
     if (
+        # This container is *NOT* a collection (e.g., is a one-shot iterator or
+        # generator satisfying a quasi-iterable hint like "Iterable[str]"), this
+        # container is *NOT* safely reiterable and need *NOT* even define the
+        # __len__() dunder method called below. The code generated for this
+        # hint silently accepts this container as is; so does this finder *OR*...
+        not isinstance(cause.pith, Collection) or
         # This container is empty, *ALL* items of this container (of which there
         # are none) are necessarily valid *OR*...
         #
